@@ -7,8 +7,6 @@ import random
 from .. import common, runner, build13, hsm13
 from ..runner import Exploration, Failure
 
-KNOWN_REMOVE_SIG = 'C13.flat.remove_transition.selector-not-a-string'
-KNOWN_NESTED_REMOVE_SIG = 'C13.nested.remove_transition.empty-entries-left'
 
 
 def fingerprint(case):
@@ -16,11 +14,9 @@ def fingerprint(case):
 
 
 def variants_of(case):
+    if 'variants' in case:          # corpus cases pin their scripts
+        return case['variants']
     return [build13.derive(case, 0, identity=True)] + [build13.derive(case, s) for s in case['vseeds']]
-
-
-def uses_nonstring_remove(variant):
-    return any(st['k'] == 'remove' and (st['srcrep'], st['dstrep']) != ('str', 'str') for st in variant['steps'])
 
 
 def evaluate(cases):
@@ -84,7 +80,7 @@ def judge(case, vs, runs, intros, builds, eq):
                 break
     # the property: all scripts of one description give the same machine
     for i in range(1, len(vs)):
-        sig = KNOWN_REMOVE_SIG if (uses_nonstring_remove(vs[i]) or uses_nonstring_remove(vs[0])) else None
+        sig = None
         a, b = runs[0], runs[i]
         if (a.error is None) != (b.error is None):
             fail('monitor', 'variant_raises', {'variant': i, 'errors': [a.error, b.error], 'scripts': [vs[0]['steps'], vs[i]['steps']]}, sig)
@@ -180,6 +176,8 @@ def chunk(stream, seed, idx, n):
 # ---------------------------------------------------------------------------------------------
 
 def hvariants_of(case):
+    if 'variants' in case:
+        return case['variants']
     return [hsm13.derive_h(case, 0, identity=True)] + [hsm13.derive_h(case, s) for s in case['vseeds']]
 
 
@@ -201,16 +199,10 @@ def hjudge(case, vs, runs, intros):
     for i in range(1, len(vs)):
         a, b = runs[0], runs[i]
         if b.error:
-            # re-adding a transition for a trigger whose event was emptied but not deleted: the trigger is not
-            # re-attached to the model (same root cause as the emptied entries)
-            readd = vs[i]['detours'] and b.error[0] == 'AttributeError' and "has no attribute 'e" in b.error[1]
-            fail('variant_raises', {'variant': i, 'error': b.error, 'plan': vs[i]},
-                 KNOWN_NESTED_REMOVE_SIG if readd else None)
+            fail('variant_raises', {'variant': i, 'error': b.error, 'plan': vs[i]})
             continue
         sig = None
         if intros[0] != intros[i]:
-            if vs[i]['detours'] and hsm13.drop_empty(intros[0]) == hsm13.drop_empty(intros[i]):
-                sig = KNOWN_NESTED_REMOVE_SIG       # the only difference: emptied entries left behind by remove
             fail('variant_structure', {'variant': i, 'canonical': intros[0], 'variant_machine': intros[i],
                                        'plan': vs[i]}, sig)
         if a.items != b.items or a.final() != b.final():
@@ -261,6 +253,93 @@ def hchunk(stream, seed, idx, n):
     return ex
 
 
+# ---------------------------------------------------------------------------------------------
+# joined names vs nested dict chains (Model/NestedNames.lean)
+# ---------------------------------------------------------------------------------------------
+
+def names_case(rng):
+    setup = [[rng.randrange(3) for _ in range(rng.randint(1, 3))] for _ in range(rng.randint(0, 3))]
+    return {'setup': setup, 'segs': [rng.randrange(4) for _ in range(rng.randint(1, 4))]}
+
+
+def names_real(case, mode):
+    """(registered paths before, outcome) of add_states(<joined name> | <dict chain>) on a real HierarchicalMachine"""
+    from transitions.extensions.nesting import HierarchicalMachine
+    m = HierarchicalMachine(model=None, initial=None, auto_transitions=False)
+    for p in case['setup']:
+        try:
+            m.add_states('_'.join('n%d' % k for k in p))
+        except ValueError:
+            pass
+    before = [[int(x[1:]) for x in n.split('_')] for n in m.get_nested_state_names()]
+    segs = case['segs']
+    if mode == 0:
+        arg = '_'.join('n%d' % k for k in segs)
+    else:
+        arg = 'n%d' % segs[-1]
+        for k in reversed(segs[:-1]):
+            arg = {'name': 'n%d' % k, ('children' if k % 2 else 'states'): [arg]}
+        if isinstance(arg, str):
+            arg = {'name': arg}
+    try:
+        m.add_states(arg)
+    except ValueError:
+        return before, 'raises'
+    after = sorted([int(x[1:]) for x in n.split('_')] for n in m.get_nested_state_names())
+    return before, after
+
+
+def names_judge(case):
+    fails = []
+    reqs, real = [], []
+    for mode in (0, 1):
+        before, out = names_real(case, mode)
+        real.append((before, out))
+        reqs.append(('c13names', [mode, 0] + [len(case['segs'])] + case['segs'] + [len(before)] +
+                     sum(([len(p)] + p for p in before), [])))
+    ans = common.batch_driver(reqs)
+    for mode, ((before, out), a) in enumerate(zip(real, ans)):
+        if a.startswith('ok '):
+            nums = [int(x) for x in a[3:].split()]
+            paths, pos = [], 1
+            for _ in range(nums[0]):
+                paths.append(nums[pos + 1:pos + 1 + nums[pos]])
+                pos += 1 + nums[pos]
+            model = sorted(paths)
+        else:
+            model = a
+        # `replaces`: the dict form overwrote a registered state without raising (the model stops there)
+        same = (out != 'raises' and case['segs'][:1] in before) if model == 'replaces' else model == out
+        if mode == 1 and len(case['segs']) > 1 and model == 'replaces':
+            same = out != 'raises'
+        if not same:
+            fails.append(Failure('correspondence', 'names_eq', case, {'mode': mode, 'model': model, 'impl': out,
+                                                                      'registered': before}))
+    fresh = not any(p[:1] == case['segs'][:1] for p in real[0][0])
+    if fresh and real[0][1] != real[1][1]:
+        fails.append(Failure('monitor', 'joined_vs_dict', case, {'joined': real[0][1], 'dict_chain': real[1][1],
+                                                                 'registered': real[0][0]},
+                             signature='C13.nested.joined_vs_dict'))
+    return fails, fresh
+
+
+def nchunk(stream, seed, idx, n):
+    rng = random.Random('C13/%s/%d/%d' % (stream, seed, idx))
+    ex = Exploration()
+    for _ in range(n):
+        case = names_case(rng)
+        fs, fresh = names_judge(case)
+        ex.evaluations += 1
+        ex.traces_validated += 2
+        if fresh and len(case['segs']) > 1:
+            ex.nontrivial.add('names:' + json.dumps(case, sort_keys=True))
+        ex.stats['names_fresh'] = ex.stats.get('names_fresh', 0) + int(fresh)
+        for f in fs:
+            f.case = {'stream': stream, 'case': case}
+            ex.failures.append(f)
+    return ex
+
+
 def hshrink_steps(payload):
     case = payload['case']
 
@@ -299,6 +378,8 @@ def hshrink_steps(payload):
 
 
 def rejudge(payload):
+    if payload['stream'] == 'nested-names':
+        return [], [], names_judge(payload['case'])[0]
     if payload['stream'].startswith('nested'):
         vs, runs, intros = hevaluate(payload['case'])
         return vs, runs, hjudge(payload['case'], vs, runs, intros)
@@ -351,6 +432,8 @@ def shrink_steps(payload):
 
 
 def any_chunk(stream, seed, idx, n):
+    if stream == 'nested-names':
+        return nchunk(stream, seed, idx, n)
     return (hchunk if stream.startswith('nested') else chunk)(stream, seed, idx, n)
 
 
@@ -361,12 +444,14 @@ STREAMS = {
     'nested': lambda: hsm13.HKnobs(),
     # add-then-remove detours on hierarchical machines
     'nested-remove': lambda: hsm13.HKnobs(detours=True, max_transitions=4),
+    'nested-names': None,
 }
 BUDGET = {   # stream -> (quick: chunks, per chunk), (thorough: chunks, per chunk)
     'flat': ((16, 200), (64, 600)),
     'flat-remove-selectors': ((4, 15), (8, 60)),
     'nested': ((16, 80), (64, 250)),
     'nested-remove': ((4, 15), (8, 60)),
+    'nested-names': ((4, 40), (8, 200)),
 }
 
 
@@ -378,7 +463,8 @@ class C13(runner.Check):
         text="Lean 4 theorems about Model/Build.lean (add_states, add_transition, add_ordered_transitions, "
              "remove_transition, initial setter written after core.py): wildcard / '=' / source-list / ordered-helper "
              "shorthands equal their expansion over the states existing at that time, any split of a batch gives the "
-             "same machine, removing transitions equals never having added them, and equivalent configurations "
+             "same machine, removing transitions (any selector representation, earlier removals allowed) equals "
+             "never having added them, and equivalent configurations "
              "(same states, same ordered candidate list per event and source) run identically on every history and "
              "script. Tied to /repo by building every generated construction script on the real Machine and "
              "comparing the introspected result with Build.build; the property itself is judged on the "
@@ -387,14 +473,15 @@ class C13(runner.Check):
         note="Trusted: Lean kernel, hand-written Model/Build.lean + Model/Core.lean, harness/build13.py variant "
              "generator and introspection. Representation choices (str/dict/State/Enum, list/dict transitions, "
              "callbacks by name/reference/import path/property) and hierarchical machines (children/states key, "
-             "joined names, embedded machine with remap) are covered by the differential only.",
+             "embedded machine with remap, nested remove_transition) are covered by the differential only; joined "
+             "names vs nested dict chains have a small Lean model (Model/NestedNames.lean) and theorem.",
         technique="Lean 4 proof (rewrite algebra of construction scripts + behavioural congruence) + differential "
                   "correspondence + verified equivalence checker on implementation structures")
     theorems = ('TM.C13_wildcard_expand', 'TM.C13_source_list_expand', 'TM.C13_source_list_split',
                 'TM.C13_same_expand', 'TM.C13_ordered_eq_ring', 'TM.C13_batching', 'TM.C13_batching_states',
-                'TM.C13_ctor_eq_later_adds', 'TM.C13_remove_as_never_added_partial',
-                'TM.C13_remove_as_never_added_counterexample', 'TM.C13_equiv_behaviour',
-                'TM.C13_equiv_behaviour_init', 'TM.C13_equivCheck_sound')
+                'TM.C13_ctor_eq_later_adds', 'TM.C13_remove_as_never_added', 'TM.C13_equiv_behaviour',
+                'TM.C13_equiv_behaviour_init', 'TM.C13_equivCheck_sound',
+                'TM.C13_joined_names_eq_nested_dict', 'TM.C13_joined_name_existing_parent')
     rule = ('random abstract constructions (2-5 states arriving in 1-3 phases, 1-3 events, <=7 transition items with '
             "'*' / list / single sources, '=' / internal / named destinations, ordered helper with loop options and "
             'per-edge arguments, auto transitions on/off, callbacks in every slot) x 4 construction scripts each '
@@ -413,7 +500,7 @@ class C13(runner.Check):
         for s, (q, t) in BUDGET.items():
             nch, per = q if tier == 'quick' else t
             payloads += [(s, seed, i, per) for i in range(nch)]
-        ex = Exploration()
+        ex = self.run_corpus()
         for part in runner.parallel(any_chunk, payloads):
             ex.merge(part)
         # shrink what will be reported: the first property failure that is not a listed finding, and the
@@ -428,9 +515,31 @@ class C13(runner.Check):
                 self.shrink_failure(first)
         return ex
 
+    def run_corpus(self):
+        """corpus/C13/*.json: past witnesses with pinned scripts; run first, every one must pass"""
+        import glob
+        import os
+        ex = Exploration()
+        for path in sorted(glob.glob(os.path.join(common.CORPUS, 'C13', '*.json'))):
+            with open(path) as fh:
+                payload = json.load(fh)
+            vs, runs, fs = rejudge(payload)
+            ex.evaluations += 1
+            ex.traces_validated += sum(1 for r in runs if not r.error)
+            ex.stats['corpus_cases'] = ex.stats.get('corpus_cases', 0) + 1
+            for f in fs:
+                f.what = 'corpus:%s:%s' % (os.path.basename(path), f.what)
+                f.case = payload
+                ex.failures.append(f)
+        return ex
+
     def shrink_failure(self, f):
+        if 'variants' in f.case['case']:
+            return                      # pinned corpus case: already minimal
         def fails(payload):
             return any(x.kind == f.kind and x.what == f.what and x.signature == f.signature for x in rejudge(payload)[2])
+        if f.case['stream'] == 'nested-names':
+            return
         steps = hshrink_steps if f.case['stream'].startswith('nested') else shrink_steps
         f.case = runner.shrink(f.case, fails, steps, budget=120)
         for x in rejudge(f.case)[2]:
